@@ -1,0 +1,334 @@
+//! Verification hook (only with `--cfg librqbit_utp_verif`): drives one real `VirtualSocket`
+//! by hand — scripted transport, virtual clock, deterministic random — and exposes a
+//! read-only snapshot of its state. Nothing here changes library behaviour.
+use std::{
+    collections::VecDeque,
+    future::Future,
+    net::{Ipv4Addr, Ipv6Addr, SocketAddr},
+    pin::Pin,
+    sync::Arc,
+    task::{Context, Poll},
+    time::{Duration, Instant},
+};
+
+use librqbit_dualstack_sockets::PollSendToVectored;
+use parking_lot::Mutex;
+use tokio::sync::mpsc::{UnboundedSender, unbounded_channel};
+
+use crate::{
+    SocketOpts, UtpSocket, UtpStream,
+    message::UtpMessage,
+    raw::UtpHeader,
+    socket::Dispatcher,
+    stream_dispatch::{StreamArgs, UtpStreamStarter, VirtualSocket, VirtualSocketState},
+    traits::{Transport, UtpEnvironment},
+};
+
+/// What the scripted transport answers to one send attempt.
+#[derive(Clone, Copy, Debug, PartialEq, Eq)]
+pub enum SendOutcome {
+    Sent,
+    Pending,
+    EMsgSize,
+    IoErr,
+}
+
+#[derive(Default)]
+struct ScriptLocked {
+    script: VecDeque<SendOutcome>,
+    sent: Vec<Vec<u8>>,
+}
+
+#[derive(Clone)]
+pub struct ScriptTransport {
+    bind_addr: SocketAddr,
+    locked: Arc<Mutex<ScriptLocked>>,
+}
+
+impl ScriptTransport {
+    fn send(&self, buf: &[u8]) -> Poll<std::io::Result<usize>> {
+        let mut g = self.locked.lock();
+        match g.script.pop_front().unwrap_or(SendOutcome::Sent) {
+            SendOutcome::Sent => {
+                g.sent.push(buf.to_owned());
+                Poll::Ready(Ok(buf.len()))
+            }
+            SendOutcome::Pending => Poll::Pending,
+            SendOutcome::EMsgSize => {
+                Poll::Ready(Err(std::io::Error::from_raw_os_error(libc::EMSGSIZE)))
+            }
+            SendOutcome::IoErr => Poll::Ready(Err(std::io::Error::other("scripted io error"))),
+        }
+    }
+}
+
+impl Transport for ScriptTransport {
+    fn recv_from<'a>(
+        &'a self,
+        _buf: &'a mut [u8],
+    ) -> impl Future<Output = std::io::Result<(usize, SocketAddr)>> {
+        std::future::pending()
+    }
+
+    async fn send_to<'a>(&'a self, buf: &'a [u8], _target: SocketAddr) -> std::io::Result<usize> {
+        match self.send(buf) {
+            Poll::Ready(r) => r,
+            Poll::Pending => Ok(0),
+        }
+    }
+
+    fn poll_send_to(
+        &self,
+        _cx: &mut Context<'_>,
+        buf: &[u8],
+        _target: SocketAddr,
+    ) -> Poll<std::io::Result<usize>> {
+        self.send(buf)
+    }
+
+    fn bind_addr(&self) -> SocketAddr {
+        self.bind_addr
+    }
+}
+
+impl PollSendToVectored for ScriptTransport {
+    fn poll_send_to_vectored(
+        &self,
+        _cx: &mut Context<'_>,
+        bufs: &[std::io::IoSlice<'_>],
+        _target: SocketAddr,
+    ) -> Poll<std::io::Result<usize>> {
+        let mut buf = Vec::new();
+        bufs.iter().for_each(|b| buf.extend_from_slice(b.as_ref()));
+        self.send(&buf)
+    }
+}
+
+struct VirtEnvLocked {
+    now: Instant,
+    random: VecDeque<u16>,
+}
+
+#[derive(Clone)]
+pub struct VirtEnv {
+    base: Instant,
+    locked: Arc<Mutex<VirtEnvLocked>>,
+}
+
+impl UtpEnvironment for VirtEnv {
+    fn now(&self) -> Instant {
+        self.locked.lock().now
+    }
+
+    fn copy(&self) -> Self {
+        self.clone()
+    }
+
+    fn random_u16(&self) -> u16 {
+        self.locked.lock().random.pop_front().unwrap_or(0)
+    }
+}
+
+/// How the connection under test is created.
+pub enum VerifStreamKind {
+    /// `StreamArgs::new_incoming(next_seq_nr, remote_syn)`
+    Incoming { next_seq_nr: u16, remote_syn: UtpHeader },
+    /// `StreamArgs::new_outgoing(remote_ack, syn_sent_ts, ack_received_ts)`; times in ns since base
+    Outgoing {
+        remote_ack: UtpHeader,
+        syn_sent_ns: u64,
+        ack_received_ns: u64,
+    },
+}
+
+#[derive(Debug, Clone, PartialEq, Eq)]
+pub struct VerifVsockSnapshot {
+    /// 0 SynReceived, 1 SynAckSent, 2 Established, 3 FinWait1, 4 FinWait2, 5 LastAck, 6 Closed
+    pub state: u8,
+    pub state_a: i64,
+    pub state_b: i64,
+    pub seq_nr: u16,
+    pub last_sent_seq_nr: u16,
+    pub last_consumed_remote_seq_nr: u16,
+    pub last_sent_ack_nr: u16,
+    pub last_sent_window: u32,
+    pub last_remote_window: u32,
+    pub consumed_but_unacked_bytes: usize,
+    pub rto_retransmissions: usize,
+    /// expiry of retransmit, inactivity, ack delay, recovery pipe, syn-ack resend (ns since base)
+    pub timers: [Option<u128>; 5],
+    pub last_arm_in: Option<u128>,
+    pub mss: u16,
+    pub max_ss: u16,
+    pub unsegmented_data: usize,
+    pub transport_pending: bool,
+    pub rto_ns: u128,
+    pub rtt_ns: u128,
+    pub cc_window: usize,
+    pub cc_sshthresh: usize,
+    /// 0 counting(dup), 1 ignoring(recovery_point), 2 recovering(recovery_point, high_rxt, total, pipe, cwnd)
+    pub recovery: (u8, i64, i64, i64, i64, i64),
+    pub recovery_supports_sack: bool,
+}
+
+pub struct VsockDriver {
+    vsock: VirtualSocket<ScriptTransport, VirtEnv>,
+    pub stream: Option<UtpStream>,
+    tx: Option<UnboundedSender<UtpMessage>>,
+    transport: ScriptTransport,
+    env: VirtEnv,
+    _socket: Arc<UtpSocket<ScriptTransport, VirtEnv>>,
+    _dispatcher: Dispatcher<ScriptTransport, VirtEnv>,
+}
+
+impl VsockDriver {
+    /// Must be called inside a tokio runtime with the time driver enabled.
+    pub fn new(opts: SocketOpts, is_ipv4: bool, kind: VerifStreamKind) -> crate::Result<Self> {
+        let base = Instant::now();
+        let env = VirtEnv {
+            base,
+            locked: Arc::new(Mutex::new(VirtEnvLocked {
+                now: base,
+                random: VecDeque::new(),
+            })),
+        };
+        let bind_addr = SocketAddr::new(std::net::IpAddr::V4(Ipv4Addr::LOCALHOST), 1);
+        let transport = ScriptTransport {
+            bind_addr,
+            locked: Default::default(),
+        };
+        let (socket, dispatcher) =
+            UtpSocket::new_with_opts_and_dispatcher(transport.clone(), env.clone(), opts)?;
+        let remote = if is_ipv4 {
+            SocketAddr::new(std::net::IpAddr::V4(Ipv4Addr::LOCALHOST), 2)
+        } else {
+            SocketAddr::new(std::net::IpAddr::V6(Ipv6Addr::LOCALHOST), 2)
+        };
+        let args = match kind {
+            VerifStreamKind::Incoming {
+                next_seq_nr,
+                remote_syn,
+            } => StreamArgs::new_incoming(next_seq_nr.into(), &remote_syn),
+            VerifStreamKind::Outgoing {
+                remote_ack,
+                syn_sent_ns,
+                ack_received_ns,
+            } => {
+                env.locked.lock().now = base + Duration::from_nanos(ack_received_ns);
+                StreamArgs::new_outgoing(
+                    &remote_ack,
+                    base + Duration::from_nanos(syn_sent_ns),
+                    base + Duration::from_nanos(ack_received_ns),
+                )
+            }
+        };
+        let (tx, rx) = unbounded_channel();
+        let UtpStreamStarter { stream, vsock, .. } =
+            UtpStreamStarter::new(&socket, remote, rx, args);
+        Ok(Self {
+            vsock,
+            stream: Some(stream),
+            tx: Some(tx),
+            transport,
+            env,
+            _socket: socket,
+            _dispatcher: dispatcher,
+        })
+    }
+
+    pub fn set_now_ns(&self, ns: u64) {
+        let mut g = self.env.locked.lock();
+        g.now = self.env.base + Duration::from_nanos(ns);
+    }
+
+    pub fn deliver(&self, msg: UtpMessage) -> bool {
+        match &self.tx {
+            Some(tx) => tx.send(msg).is_ok(),
+            None => false,
+        }
+    }
+
+    pub fn close_inbox(&mut self) {
+        self.tx = None;
+    }
+
+    pub fn script_sends(&self, outcomes: &[SendOutcome]) {
+        let mut g = self.transport.locked.lock();
+        g.script.clear();
+        g.script.extend(outcomes.iter().copied());
+    }
+
+    pub fn take_sent(&self) -> Vec<Vec<u8>> {
+        std::mem::take(&mut self.transport.locked.lock().sent)
+    }
+
+    pub fn poll_once(&mut self, cx: &mut Context<'_>) -> Poll<crate::Result<()>> {
+        self.vsock.timers.verif_last_arm_in = None;
+        Pin::new(&mut self.vsock).poll(cx)
+    }
+
+    pub fn snapshot(&self) -> VerifVsockSnapshot {
+        let v = &self.vsock;
+        let base = self.env.base;
+        let t = |i: Option<Instant>| i.map(|i| i.saturating_duration_since(base).as_nanos());
+        let (state, state_a, state_b) = match v.state {
+            VirtualSocketState::SynReceived => (0, -1, -1),
+            VirtualSocketState::SynAckSent { count } => (1, count as i64, -1),
+            VirtualSocketState::Established => (2, -1, -1),
+            VirtualSocketState::FinWait1 { our_fin } => (3, our_fin.0 as i64, -1),
+            VirtualSocketState::FinWait2 => (4, -1, -1),
+            VirtualSocketState::LastAck {
+                our_fin,
+                remote_fin,
+            } => (5, our_fin.0 as i64, remote_fin.0 as i64),
+            VirtualSocketState::Closed => (6, -1, -1),
+        };
+        VerifVsockSnapshot {
+            state,
+            state_a,
+            state_b,
+            seq_nr: v.seq_nr.0,
+            last_sent_seq_nr: v.last_sent_seq_nr.0,
+            last_consumed_remote_seq_nr: v.last_consumed_remote_seq_nr.0,
+            last_sent_ack_nr: v.last_sent_ack_nr.0,
+            last_sent_window: v.last_sent_window,
+            last_remote_window: v.last_remote_window,
+            consumed_but_unacked_bytes: v.consumed_but_unacked_bytes,
+            rto_retransmissions: v.rto_retransmissions,
+            timers: [
+                t(v.timers.retransmit.poll_at()),
+                t(v.timers.remote_inactivity_timer.poll_at()),
+                t(v.timers.ack_delay_timer.poll_at()),
+                t(v.timers.recovery_pipe_expiry.poll_at()),
+                t(v.timers.syn_ack_resend.poll_at()),
+            ],
+            last_arm_in: v.timers.verif_last_arm_in.map(|d| d.as_nanos()),
+            mss: v.segment_sizes.mss(),
+            max_ss: v.segment_sizes.max_ss(),
+            unsegmented_data: v.this_poll.unsegmented_data,
+            transport_pending: v.this_poll.transport_pending,
+            rto_ns: v.rtte.retransmission_timeout().as_nanos(),
+            rtt_ns: v.rtte.roundtrip_time().as_nanos(),
+            cc_window: v.congestion_controller.window(),
+            cc_sshthresh: v.congestion_controller.sshthresh(),
+            recovery: v.recovery.verif_phase(),
+            recovery_supports_sack: v.recovery.verif_supports_sack(),
+        }
+    }
+
+    pub fn segments_snapshot(&self) -> crate::stream_tx_segments::VerifSegmentsSnapshot {
+        self.vsock.user_tx_segments.verif_snapshot()
+    }
+
+    pub fn rx_snapshot(&self) -> crate::stream_rx::VerifRxSnapshot {
+        self.vsock.user_rx.verif_snapshot()
+    }
+
+    pub fn user_tx(&self) -> Arc<crate::stream_tx::UserTx> {
+        self.vsock.user_tx.clone()
+    }
+
+    pub fn base(&self) -> Instant {
+        self.env.base
+    }
+}
